@@ -1461,6 +1461,18 @@ class Evaluator(object):
             vals.update({k_: v_ for k_, v_ in kw})
             if len(args) <= len(fl) and set(vals) == set(fl):
                 return tm.tup([vals[f_] for f_ in fl])
+        if fn is not None and tm.callee_name(fn) == "itertools.starmap" and len(args) == 2 and not kw and args[0].op in ("builtin", "func", "localfunc", "ext") and args[1].op == "call" and tm.callee_name(args[1].a[0]) == "builtins.zip" and not args[1].a[2] and not any(z.op == "star" for z in args[1].a[1]):
+            # itertools.starmap(f, zip(a, b)) is (f(x, y) for x, y in zip(a, b))
+            self.ncomps += 1
+            cid = "C%d" % self.ncomps
+            it = args[1]
+            el = tuple(tm.mk("iter", z, cid) for z in it.a[1])
+            saved_ = self.pc
+            self.pc = saved_ + (("loop", cid, it),)
+            et_ = self.apply(args[0], el, ())
+            self.site("call", node, callee=tm.callee_name(args[0]), fn=args[0], base=None, args=el, kw=(), term=et_, via_filter=False, method=None)
+            self.pc = saved_
+            return tm.mk("comp", "gen", et_, (it,), (), cid)
         if fn is not None and tm.callee_name(fn) == "builtins.map" and len(args) == 2 and not kw and args[0].op in ("builtin", "func", "localfunc", "ext"):
             # map(f, it) is (f(x) for x in it)
             self.ncomps += 1
@@ -1468,7 +1480,13 @@ class Evaluator(object):
             it = args[1]
             while it.op == "call" and tm.callee_name(it.a[0]) in ("builtins.list", "builtins.tuple", ".tolist") and len(it.a[1]) == 1 and not it.a[2]:
                 it = it.a[1][0]
-            return tm.mk("comp", "gen", self.apply(args[0], (tm.mk("iter", it, cid),), ()), (it,), (), cid)
+            saved_ = self.pc
+            self.pc = saved_ + (("loop", cid, it),)
+            et_ = self.apply(args[0], (tm.mk("iter", it, cid),), ())
+            if args[0].op in ("func", "localfunc"):
+                self.site("call", node, callee=tm.callee_name(args[0]), fn=args[0], base=None, args=(tm.mk("iter", it, cid),), kw=(), term=et_, via_filter=False, method=None)
+            self.pc = saved_
+            return tm.mk("comp", "gen", et_, (it,), (), cid)
         if base is not None and node.func.attr == "format" and base.op == "const" and isinstance(base.a[0], str) and not kw and args and all(a_.op == "const" and isinstance(a_.a[0], str) for a_ in args):
             try:
                 return tm.const(base.a[0].format(*[a_.a[0] for a_ in args]))
@@ -1561,6 +1579,14 @@ class Evaluator(object):
                     outt = args[pos[k_]]
         if outt is not None and outt.op != "const":
             self.site("mutate", node, how="out:" + str(callee), old=outt, root=None, key=tm.none(), val=t, target=None)
+            kw_wo = tuple((k_, v_) for k_, v_ in kw if k_ != "out")
+            if len(kw_wo) != len(kw):
+                # np.add(a, b, out=a) is a += b: the value is that of the call without out=, and the variable named by
+                # out= holds it afterwards
+                t = self.apply(fn, args, kw_wo)
+                for k_ in getattr(node, "keywords", []):
+                    if k_.arg == "out" and isinstance(k_.value, ast.Name) and k_.value.id in env:
+                        env[k_.value.id] = t
         return t
 
     def canonical_args(self, fn, args, kw):
